@@ -185,4 +185,321 @@ example : (prevPageSerial { size := 100, pages := #[{ off := 0, len := 40, hlen 
       { off := 40, len := 60, hlen := 27, serial := 7, pageno := 1, gran := 64, bos := false, eos := true, cont := false, pk := [] }], infos := [] }
     100 [7] 7 (-1) (backFuel 100) 100 (-1)).1 = 40 := by decide
 
+theorem run_get_bind {β : Type} (k : VF → M β) (s : VF) : ((get >>= k).run s) = (k s).run s := rfl
+theorem run_set_bind {β : Type} (s' : VF) (k : PUnit → M β) (s : VF) : ((set s' >>= k).run s) = (k ⟨⟩).run s' := rfl
+theorem run_modify_bind {β : Type} (f : VF → VF) (k : PUnit → M β) (s : VF) : ((modify f >>= k).run s) = (k ⟨⟩).run (f s) := rfl
+theorem run_pure {β : Type} (a : β) (s : VF) : ((pure a : M β).run s) = (a, s) := rfl
+
+theorem packetout_shorter (o : OStream) (h : o.packetout.1 ≠ 0) : o.packetout.2.2.2.q.length < o.q.length := by
+  unfold OStream.packetout at h ⊢
+  by_cases hd : o.dead = true
+  · simp [hd] at h
+  · simp only [hd, Bool.false_eq_true, if_false] at h ⊢
+    cases hq : o.q with
+    | nil => simp [hq] at h
+    | cons p rest =>
+        simp only [hq]
+        by_cases hh : p.hole = true <;> simp [hh]
+
+/-- the packet loop of `_fetch_and_process_packet` never runs out of the fuel the model gives it (one more than the packets queued) -/
+theorem fpPackets_fuel : ∀ (f : Nat) (s : VF), s.os.q.length < f → ((fpPackets f).run s).1 ≠ some FUEL := by
+  intro f
+  induction f with
+  | zero => intro s h; omega
+  | succ f ih =>
+      intro s h
+      unfold fpPackets
+      rw [run_get_bind]
+      simp only []
+      by_cases h1 : s.os.packetout.1 = -1
+      · rw [if_pos h1, run_set_bind, run_pure]
+        simp [OV_HOLE, Generated.OV_HOLE, FUEL]
+      · rw [if_neg h1]
+        by_cases h2 : s.os.packetout.1 > 0
+        · rw [if_pos h2, run_set_bind]
+          have hl := packetout_shorter s.os (by omega)
+          split
+          · split
+            · rw [run_pure]; simp [OV_EFAULT, Generated.OV_EFAULT, FUEL]
+            · rw [run_modify_bind]
+              split
+              · rw [run_modify_bind, run_pure]; simp [FUEL]
+              · rw [run_pure]; simp [FUEL]
+          · apply ih
+            show s.os.packetout.2.2.2.q.length < f
+            omega
+        · rw [if_neg h2, run_pure]; simp
+
+theorem run_getNextPage (ph : Phys) (b : Int) (s : VF) :
+    (getNextPage ph b).run s = (((nextPage ph s.cur b).1, (nextPage ph s.cur b).2.1),
+      { s with offset := (nextPage ph s.cur b).2.2.off, fill := (nextPage ph s.cur b).2.2.fill }) := rfl
+
+theorem run_bind_eq {α β : Type} (m : M α) (k : α → M β) (s : VF) : ((m >>= k).run s) = (k (m.run s).1).run (m.run s).2 := by
+  show (StateT.bind m k) s = (k (m s).1) (m s).2
+  unfold StateT.bind
+  simp only [bind]
+  cases hm : m s
+  rfl
+
+/-- the page loop never runs out of fuel: every round consumes a page -/
+theorem fpPage_fuel (ph : Phys) (hlen : ∀ p ∈ ph.pages, 0 < p.len) (readp spanp : Bool) :
+    ∀ (f : Nat) (s : VF), ahead ph s.offset < f → ((fpPage ph readp spanp f).run s).1.1 ≠ FUEL := by
+  intro f
+  induction f with
+  | zero => intro s h; omega
+  | succ f ih =>
+      intro s h
+      unfold fpPage
+      by_cases hr : (!readp) = true
+      · rw [if_pos hr, run_pure]; simp [FUEL]
+      · rw [if_neg hr, run_bind_eq, run_getNextPage]
+        simp only []
+        by_cases hneg : (nextPage ph s.cur (-1)).1 < 0
+        · rw [if_pos hneg, run_pure]; simp [OV_EOF, Generated.OV_EOF, FUEL]
+        · rw [if_neg hneg, run_get_bind]
+          simp only []
+          have hp := nextPage_progress ph hlen s.cur (-1) (by omega)
+          split
+          · split
+            · split
+              · rw [run_pure]; simp [OV_EOF, Generated.OV_EOF, FUEL]
+              · rw [run_bind_eq]
+                split <;> (first | (rw [run_modify_bind, run_pure]; simp [FUEL]) | (rw [run_pure]; simp [FUEL]))
+            · apply ih
+              show ahead ph (nextPage ph s.cur (-1)).2.2.off < f
+              have : s.cur.off = s.offset := rfl
+              rw [this] at hp
+              omega
+          · rw [run_pure]; simp [FUEL]
+
+theorem fpPackets_offset : ∀ (f : Nat) (s : VF), ((fpPackets f).run s).2.offset = s.offset := by
+  intro f
+  induction f with
+  | zero => intro s; rfl
+  | succ f ih =>
+      intro s
+      unfold fpPackets
+      rw [run_get_bind]
+      simp only []
+      split
+      · rfl
+      · split
+        · rw [run_set_bind]
+          split
+          · split
+            · rfl
+            · rw [run_modify_bind]
+              split
+              · rfl
+              · rfl
+          · rw [ih]
+        · rfl
+
+theorem makeDecodeReady_offset (s : VF) : (makeDecodeReady.run s).2.offset = s.offset := by
+  unfold makeDecodeReady
+  rw [run_get_bind]
+  split
+  · rfl
+  · split <;> rfl
+
+/-- the page loop only moves forward, and a page handed on has been consumed -/
+theorem fpPage_progress (ph : Phys) (hlen : ∀ p ∈ ph.pages, 0 < p.len) (readp spanp : Bool) :
+    ∀ (f : Nat) (s : VF),
+      (((fpPage ph readp spanp f).run s).1.1 = 0 ∧ ((fpPage ph readp spanp f).run s).1.2.2 = false →
+        ahead ph ((fpPage ph readp spanp f).run s).2.offset < ahead ph s.offset) := by
+  intro f
+  induction f with
+  | zero => intro s h; exact absurd (show FUEL = (0:Int) from h.1) (by decide)
+  | succ f ih =>
+      intro s
+      unfold fpPage
+      by_cases hr : (!readp) = true
+      · rw [if_pos hr, run_pure]; intro h; exact absurd (show true = false from h.2) (by decide)
+      · rw [if_neg hr, run_bind_eq, run_getNextPage]
+        simp only []
+        by_cases hneg : (nextPage ph s.cur (-1)).1 < 0
+        · rw [if_pos hneg, run_pure]; intro h; exact absurd (show true = false from h.2) (by decide)
+        · rw [if_neg hneg, run_get_bind]
+          simp only []
+          have hp := nextPage_progress ph hlen s.cur (-1) (by omega)
+          have hcur : s.cur.off = s.offset := rfl
+          rw [hcur] at hp
+          split
+          · split
+            · split
+              · rw [run_pure]; intro h; exact absurd (show true = false from h.2) (by decide)
+              · rw [run_bind_eq]
+                split
+                · rw [run_modify_bind, run_pure]; intro _; exact hp
+                · rw [run_pure]; intro _; exact hp
+            · intro h
+              have := ih _ h
+              have e : ahead ph ({ s with offset := (nextPage ph s.cur (-1)).2.2.off, fill := (nextPage ph s.cur (-1)).2.2.fill } : VF).offset
+                  = ahead ph (nextPage ph s.cur (-1)).2.2.off := rfl
+              omega
+          · rw [run_pure]; intro _; exact hp
+
+theorem makeDecodeReady_notfuel (s : VF) : (makeDecodeReady.run s).1 ≠ FUEL := by
+  unfold makeDecodeReady
+  rw [run_get_bind]
+  split
+  · rw [run_pure]; show (0 : Int) ≠ FUEL; decide
+  · split
+    · rw [run_pure]; show OV_EFAULT ≠ FUEL; decide
+    · rw [run_set_bind, run_pure]; show (0 : Int) ≠ FUEL; decide
+
+theorem makeDecodeReady_seekable2 (s : VF) : (makeDecodeReady.run s).2.seekable = s.seekable := by
+  unfold makeDecodeReady
+  rw [run_get_bind]
+  split
+  · rfl
+  · split <;> rfl
+
+theorem fpPackets_seekable : ∀ (f : Nat) (s : VF), ((fpPackets f).run s).2.seekable = s.seekable := by
+  intro f
+  induction f with
+  | zero => intro s; rfl
+  | succ f ih =>
+      intro s
+      unfold fpPackets
+      rw [run_get_bind]
+      simp only []
+      split
+      · rfl
+      · split
+        · rw [run_set_bind]
+          split
+          · split
+            · rfl
+            · rw [run_modify_bind]
+              split
+              · rfl
+              · rfl
+          · rw [ih]
+        · rfl
+
+theorem fpPage_seekable (ph : Phys) (readp spanp : Bool) : ∀ (f : Nat) (s : VF), ((fpPage ph readp spanp f).run s).2.seekable = s.seekable := by
+  intro f
+  induction f with
+  | zero => intro s; rfl
+  | succ f ih =>
+      intro s
+      unfold fpPage
+      split
+      · rfl
+      · rw [run_bind_eq, run_getNextPage]
+        simp only []
+        split
+        · rfl
+        · rw [run_get_bind]
+          simp only []
+          split
+          · split
+            · split
+              · rfl
+              · rw [run_bind_eq]
+                split
+                · rfl
+                · rfl
+            · rw [ih]
+          · rfl
+
+/-- **`_fetch_and_process_packet` terminates** on a seekable handle for every page table with positive page lengths: with one round of
+    fuel per page still ahead of the cursor (the model gives it `2*pages + packets + 16`) the out-of-fuel sentinel is never returned -/
+theorem fetchAndProcess_fuel (ph : Phys) (hlen : ∀ p ∈ ph.pages, 0 < p.len) (readp spanp : Bool) :
+    ∀ (fuel : Nat) (s : VF), s.seekable = true → ahead ph s.offset < fuel → ((fetchAndProcess ph readp spanp fuel).run s).1 ≠ FUEL := by
+  intro fuel
+  induction fuel with
+  | zero => intro s _ h; omega
+  | succ fuel ih =>
+      intro s hk h
+      unfold fetchAndProcess
+      rw [run_get_bind, run_bind_eq]
+      -- the decoder set-up step
+      generalize hm : (if s.ready = STREAMSET then makeDecodeReady else (pure 0 : M Int)).run s = r0
+      have hr0 : r0.1 ≠ FUEL ∧ r0.2.offset = s.offset ∧ r0.2.seekable = true := by
+        rw [← hm]
+        split
+        · exact ⟨makeDecodeReady_notfuel s, makeDecodeReady_offset s, by rw [makeDecodeReady_seekable2]; exact hk⟩
+        · exact ⟨by rw [run_pure]; show (0 : Int) ≠ FUEL; decide, rfl, hk⟩
+      obtain ⟨r0v, s1⟩ := r0
+      simp only [] at hr0 ⊢
+      split
+      · rw [run_pure]; exact hr0.1
+      · rw [run_get_bind, run_bind_eq]
+        generalize hp : (if s1.ready = INITSET then fpPackets (s1.os.q.length + 1) else (pure none : M (Option Int))).run s1 = pr
+        have hpr : pr.1 ≠ some FUEL ∧ pr.2.offset = s1.offset ∧ pr.2.seekable = true := by
+          rw [← hp]
+          split
+          · exact ⟨fpPackets_fuel _ s1 (by omega), fpPackets_offset _ s1, by rw [fpPackets_seekable]; exact hr0.2.2⟩
+          · exact ⟨by rw [run_pure]; simp, rfl, hr0.2.2⟩
+        obtain ⟨prv, s2⟩ := pr
+        simp only [] at hpr ⊢
+        cases prv with
+        | some r =>
+            simp only []
+            rw [run_pure]
+            intro hh
+            exact hpr.1 (congrArg some hh)
+        | none =>
+            simp only []
+            unfold fpPageStep
+            rw [run_get_bind]
+            split
+            · rw [run_pure]; show OV_EFAULT ≠ FUEL; decide
+            · rw [run_bind_eq]
+              have hf := fpPage_fuel ph hlen readp spanp (ph.pages.size + 1) s2 (by have := ahead_le ph s2.offset; omega)
+              have hg := fpPage_progress ph hlen readp spanp (ph.pages.size + 1) s2
+              have hsk := fpPage_seekable ph readp spanp (ph.pages.size + 1) s2
+              generalize (fpPage ph readp spanp (ph.pages.size + 1)).run s2 = pg at hf hg hsk
+              obtain ⟨⟨rc, og, stop⟩, s3⟩ := pg
+              simp only [] at hf hg hsk ⊢
+              split
+              · rw [run_pure]; exact hf
+              · rename_i hcont
+                have hrc : rc = 0 ∧ stop = false := by
+                  constructor
+                  · by_cases e : rc = 0
+                    · exact e
+                    · exact absurd (Or.inr e) hcont
+                  · cases stop
+                    · rfl
+                    · exact absurd (Or.inl rfl) hcont
+                have hlt := hg hrc
+                have hk3 : s3.seekable = true := by rw [hsk]; exact hpr.2.2
+                have ha3 : ahead ph s3.offset < fuel := by
+                  have e1 : s2.offset = s.offset := by rw [hpr.2.1, hr0.2.1]
+                  rw [e1] at hlt; omega
+                unfold fpAfterPage
+                rw [run_get_bind]
+                simp only []
+                by_cases hc : s3.ready ≠ INITSET ∧ s3.ready < STREAMSET
+                · rw [if_pos hc, if_pos hk3]
+                  cases hl : linkOf s3 og.serial with
+                  | none => exact ih s3 hk3 ha3
+                  | some link =>
+                      simp only []
+                      rw [run_modify_bind]
+                      exact ih _ hk3 ha3
+                · rw [if_neg hc, run_modify_bind]
+                  exact ih _ hk3 ha3
+
+/-- **C03_fetch_and_process_terminates** — with the fuel the model actually gives it (`Phys.work`) `_fetch_and_process_packet` returns
+    a packet, end of file or an error for every seekable handle state and every page table with positive page lengths — never the
+    out-of-fuel sentinel -/
+theorem C03_fetch_and_process_terminates (ph : Phys) (hlen : ∀ p ∈ ph.pages, 0 < p.len) (readp spanp : Bool) (s : VF)
+    (hk : s.seekable = true) : ((fetchAndProcess ph readp spanp (fpFuel ph)).run s).1 ≠ FUEL := by
+  apply fetchAndProcess_fuel ph hlen readp spanp _ s hk
+  have := ahead_le ph s.offset
+  unfold fpFuel Phys.work
+  omega
+
+/-- the two inner loops under their property names -/
+theorem C03_packet_loop_terminates (s : VF) : ((fpPackets (s.os.q.length + 1)).run s).1 ≠ some FUEL :=
+  fpPackets_fuel _ s (by omega)
+
+theorem C03_page_loop_terminates (ph : Phys) (hlen : ∀ p ∈ ph.pages, 0 < p.len) (readp spanp : Bool) (s : VF) :
+    ((fpPage ph readp spanp (ph.pages.size + 1)).run s).1.1 ≠ FUEL :=
+  fpPage_fuel ph hlen readp spanp _ s (by have := ahead_le ph s.offset; omega)
+
 end Vorbis.Props.C03
